@@ -246,7 +246,8 @@ static void run_call(const struct ulist *ul, int c) {
     if (s == SIGVTALRM) { n += snprintf(line + n, sizeof line - n, "hang"); hung = 1; }
     else n += snprintf(line + n, sizeof line - n, "sig:%s", signame(s));
   }
-  tail_fields(u, tail, sizeof tail);
+  if (hung) snprintf(tail, sizeof tail, " M - H -\n"); /* the cut-off point is not reproducible: no memory hash, no trace */
+  else tail_fields(u, tail, sizeof tail);
   snprintf(line + n, sizeof line - n, "%s", tail);
   emit(line);
   const char *dump = getenv("DRV_DUMP"); /* debugging aid: <prefix>.<unit>.<call> gets the memory image */
